@@ -198,7 +198,7 @@ fn retarget(w: &World, tx: &mut Transaction, mult: u128, over: i128) -> Option<(
 }
 
 pub fn run(p: &Params) -> Report {
-    let total = p.n(320, 6400);
+    let total = p.n(1000, 25000);
     let mine = p.share(total);
     let mut rng = Rng::new(p.shard_seed() ^ 0xC05);
     let mut mon = C05 { rep: Report::new("C05"), case_seed: 0 };
